@@ -1,9 +1,9 @@
 package props
 
 import (
-	"github.com/henrylee2cn/goutil"
 	"context"
 	"fmt"
+	"github.com/henrylee2cn/goutil"
 	"strings"
 	"testing"
 	"time"
